@@ -301,6 +301,9 @@ func newClient(sc scenario, addr string) *rpcw.Client {
 	if sc.ReadZero {
 		cl.App.ClientConfig().ClientReadTimeout = 0
 	}
+	if sc.DeadlineMs == 0 && sc.Source == "proxy-timeout" {
+		cl.SP.TarsSetTimeout(0) // an effective timeout of 0: the deadline is now
+	}
 	return cl
 }
 
@@ -421,6 +424,9 @@ func runScenario(sc scenario) {
 	}
 	// ---- control batch on the now healthy peer ----
 	p.makeHealthy()
+	if sc.DeadlineMs == 0 && sc.Source == "proxy-timeout" {
+		cl.SP.TarsSetTimeout(3000) // the control calls need a real deadline
+	}
 	ctl := scenario{ID: sc.ID, Fault: "healthy", Source: sc.Source, DeadlineMs: 3000, DialMs: sc.DialMs, WriteMs: sc.WriteMs}
 	hung := false
 	okAll := waitFor(func() bool {
@@ -591,6 +597,14 @@ func main() {
 	for _, src := range sources {
 		id++
 		scs = append(scs, scenario{ID: id, Fault: "late-0.5", Source: src, DeadlineMs: 300, Callers: 1, PerCaller: 4, DialMs: 300, WriteMs: 500, ReadZero: true})
+	}
+	// an effective timeout of 0 (proxy timeout 0, per-call timeout 0, a context already at its deadline):
+	// the call ends at once with the timeout error — it does not wait for ever for a reply that may not come
+	for _, src := range sources {
+		for _, f := range []string{"read-then-silence", "foreign-id"} {
+			id++
+			scs = append(scs, scenario{ID: id, Fault: f, Source: src, DeadlineMs: 0, Callers: 1, PerCaller: 2, DialMs: 300, WriteMs: 500})
+		}
 	}
 	// a small bound on calls in flight: the calls refused at once must not stay counted
 	for si, src := range sources {
